@@ -2745,6 +2745,13 @@ fn parse_tap_dance(
             Ok(actions)
         })
         .ok_or_else(|| anyhow_expr!(&ac_params[1], "{ERR_MSG}: expected a list"))??;
+    if actions.is_empty() {
+        // The run time selects one of the actions by index; there must be at least one.
+        bail_expr!(
+            &ac_params[1],
+            "{ERR_MSG}: the list of actions must not be empty"
+        );
+    }
 
     Ok(s.a.sref(Action::TapDance(s.a.sref(TapDance {
         timeout,
